@@ -15,6 +15,7 @@ import re, copy
 
 MAX_DEPTH = 4
 MAX_BLOCKS = 4000
+SMALL_HELPER_BLOCKS = 8
 
 
 def _relabel(x, lo, bo):
@@ -574,12 +575,17 @@ class Normal:
         self.absorbed = {}
         for p, hb in cands.items():
             cs = callers.get(p, set())
-            if len(cs) != 1:
+            if not cs:
                 continue
-            c = raw_by_path.get(next(iter(cs)))
-            if c is None or (same_file and not _same_module_scope(hb.file, c.file)):
-                continue
-            self.absorbed[p] = hb
+            if len(cs) > 1 and (hb.n > SMALL_HELPER_BLOCKS or len(cs) > 6):
+                continue            # a shared helper is copied into each of its callers only when it is small
+            ok = True
+            for cp in cs:
+                c = raw_by_path.get(cp)
+                if c is None or (same_file and not _same_module_scope(hb.file, c.file)):
+                    ok = False
+            if ok:
+                self.absorbed[p] = hb
         self.host = {}
         self.bodies = []
         self._by_path = {}
